@@ -71,6 +71,7 @@ type termKey struct {
 	c       uint64
 	name    string
 	a, b, d int32
+	cv      [3]uint64
 }
 
 type table struct {
@@ -116,16 +117,24 @@ func mask(w uint8) uint64 {
 
 func (s *TermStore) mk(op Op, w uint8, c uint64, name string, args ...*Term) *Term {
 	k := termKey{op: op, w: w, c: c, name: name, a: -1, b: -1, d: -1}
+	// constant operands are not interned: they enter the key by value
+	argKey := func(i int, t *Term) int32 {
+		if t.op == OpConst {
+			k.cv[i] = t.c
+			return -2 - int32(t.w)
+		}
+		return t.id
+	}
 	if len(args) > 0 {
-		k.a = args[0].id
+		k.a = argKey(0, args[0])
 	}
 	if len(args) > 1 {
-		k.b = args[1].id
+		k.b = argKey(1, args[1])
 	}
 	if len(args) > 2 {
-		k.d = args[2].id
+		k.d = argKey(2, args[2])
 	}
-	h := uint32(k.op)*31 + uint32(k.w)*17 + uint32(k.c)*2654435761 + uint32(k.c>>32)*40503 + uint32(k.a)*97 + uint32(k.b)*1009 + uint32(k.d)*7919
+	h := uint32(k.op)*31 + uint32(k.w)*17 + uint32(k.c)*2654435761 + uint32(k.c>>32)*40503 + uint32(k.a)*97 + uint32(k.b)*1009 + uint32(k.d)*7919 + uint32(k.cv[0])*31337 + uint32(k.cv[1])*65599 + uint32(k.cv[2])*131
 	for i := 0; i < len(name); i++ {
 		h = h*16777619 ^ uint32(name[i])
 	}
@@ -143,7 +152,27 @@ func (s *TermStore) mk(op Op, w uint8, c uint64, name string, args ...*Term) *Te
 func (t *Term) IsConst() bool { return t.op == OpConst }
 func (t *Term) IsBool() bool  { return t.w == 0 }
 
-func BV(w uint8, v uint64) *Term { return TS.mk(OpConst, w, v&mask(w), "") }
+// BV constants are not interned (constant folding compares by value); small ones are cached.
+var smallConsts [65][]*Term
+
+func init() {
+	for _, w := range []uint8{8, 16, 32, 64} {
+		smallConsts[w] = make([]*Term, 512)
+		for v := range smallConsts[w] {
+			smallConsts[w][v] = &Term{op: OpConst, w: w, c: uint64(v), id: -1}
+		}
+	}
+}
+
+func BV(w uint8, v uint64) *Term {
+	v &= mask(w)
+	if w <= 64 && v < 512 {
+		if c := smallConsts[w]; c != nil {
+			return c[v]
+		}
+	}
+	return &Term{op: OpConst, w: w, c: v, id: -1}
+}
 func Bool(b bool) *Term {
 	if b {
 		return TS.mk(OpConst, 0, 1, "")
@@ -702,6 +731,9 @@ func Eq(a, b *Term) *Term {
 	chkW(a, b)
 	if a == b {
 		return True
+	}
+	if a.op == OpConst && b.op == OpConst {
+		return Bool(a.c == b.c)
 	}
 	if a.op == OpConst && b.op != OpConst {
 		a, b = b, a
